@@ -333,7 +333,7 @@ def anchor_kind(f, v, list_struct, node_struct, nxt='n', prv='p', tail=None):
     return None
 
 
-def check_insert_anchors(m, rule, unit, prim_name_hint, list_struct, node_struct, entries, nxt='n', prv='p', tail=None):
+def check_insert_anchors(m, rule, unit, prim_name_hint, list_struct, node_struct, entries, nxt='n', prv='p', tail=None, null_fns=()):
     """entries: {function name: ('front' | 'back' | ('after', '$k'))}.  The primitive links `new` after or before its
     anchor; each entry point must pass the anchor that puts the new node where the entry point promises."""
     mod = m.plain.get(unit)
@@ -354,6 +354,29 @@ def check_insert_anchors(m, rule, unit, prim_name_hint, list_struct, node_struct
             rule.undecided(site, 'not in the model')
             continue
         cs = list(f.calls(prim.name))
+        if len(cs) == 0 and null_fns:
+            # delegation: the entry point hands the work to another one ("insert after the last element"); the element it
+            # names as the anchor must exist -- the result of a function documented to return NULL for an empty list is
+            # not an element unless it was tested
+            from .facts import Prover, strip_bitcasts
+            dele = [(c, entries[c.callee]) for c in f.all_insts() if c.op == 'call' and c.callee in entries and c.callee != name
+                    and isinstance(entries[c.callee], tuple)]
+            done = False
+            for c, pr in dele:
+                k = int(pr[1][1:])
+                arg = strip_bitcasts(f, c.o[k]) if k < len(c.o) and isinstance(c.o[k], str) else None
+                ai = f.get(arg) if isinstance(arg, str) else None
+                if ai is not None and ai.op == 'call' and ai.callee in null_fns:
+                    done = True
+                    pv = Prover(f)
+                    if pv.prove_at(('ne', arg, 'null'), c):
+                        rule.ok(site, 'delegates to %s() after the element %s() returned, tested against NULL' % (c.callee, ai.callee), c.loc())
+                    else:
+                        rule.violation(site, '%s delegates to %s() with the result of %s() as the anchor element, without testing it: for an empty list '
+                                       'that result is NULL (as documented), and the anchor node is computed from a NULL element'
+                                       % (name, c.callee, ai.callee), c.loc(), {})
+            if done:
+                continue
         if len(cs) != 1:
             rule.ok(site, 'NOT DECIDED: %d calls of %s' % (len(cs), prim.name))
             continue
